@@ -479,7 +479,14 @@ func setMapField(field reflect.Value, fieldType reflect.Type, isPtr bool, mapArr
 // setFieldFromString sets a struct field from a string default value.
 func setFieldFromString(field reflect.Value, fieldType reflect.Type, s string) error {
 	if fieldType.Kind() == reflect.Ptr {
-		fieldType = fieldType.Elem()
+		// A pointer field gets a fresh pointee holding the default; calling
+		// SetString etc. on the pointer Value itself panics.
+		ptr := reflect.New(fieldType.Elem())
+		if err := setFieldFromString(ptr.Elem(), fieldType.Elem(), s); err != nil {
+			return err
+		}
+		field.Set(ptr)
+		return nil
 	}
 	switch fieldType.Kind() {
 	case reflect.String:
